@@ -1,5 +1,6 @@
 import BigDec.Model.Parse
 import BigDec.Spec.Numeral
+import BigDec.Proofs.Parse
 /-! # C05 — parsing yields exactly the denoted number, rejects all else, never panics
 
 `Parse.parseDec` models `from_str_radix` with the two parsers it delegates to; it is a total
@@ -31,6 +32,57 @@ theorem C05_scale_in_range (s : List Nat) (d : Dec) (h : parseDec s 10 = some d)
           simp only [Option.map_eq_some_iff] at h
           obtain ⟨i, _, hi⟩ := h
           rw [← hi]; simp only []; omega
+
+/-- **Main theorem**: on every byte string the model of `from_str_radix(_, 10)` (exponent split,
+    `i128` exponent parser, point split with sign rejection, checked scale subtraction, `BigInt`
+    parser with its sign and underscore rules) accepts exactly the numerals of the grammar and
+    returns exactly the denoted (digits, scale) pair; every other string is rejected. -/
+theorem C05_parse_eq_spec (s : List Nat) : parseDec s 10 = Spec.Numeral.specParse s := by
+  have hm : parseDec s 10 = (match splitExponent s with
+      | none => none
+      | some (base, exponent) => mantModel base exponent) := by
+    unfold parseDec mantModel
+    simp only [ne_eq, not_true_eq_false, if_false]
+    rfl
+  have hsp : Spec.Numeral.specParse s = (match Spec.Numeral.cut [101, 69] s with
+      | (mant, expPart) =>
+        match (match expPart with
+          | none => some (0 : Int)
+          | some e => Spec.Numeral.exponentValue e) with
+        | none => none
+        | some e => if e < -(2 ^ 127 : Int) ∨ e ≥ (2 ^ 127 : Int) then none else mantSpec mant e) := by
+    rfl
+  rw [hm, hsp, cut_eq_splitFirst]
+  have hf : (fun b => ([101, 69] : List Nat).contains b) = (fun b => b == ce || b == cE) :=
+    funext contains_eE
+  rw [hf]
+  unfold splitExponent
+  cases hsplit : splitFirst (fun b => b == ce || b == cE) s with
+  | none =>
+    simp only
+    have : ¬ ((0 : Int) < -(2 ^ 127 : Int) ∨ (0 : Int) ≥ (2 ^ 127 : Int)) := by omega
+    rw [if_neg this]
+    exact mant_eq s 0
+  | some pr =>
+    obtain ⟨b, ex⟩ := pr
+    simp only
+    rw [parseI128_eq]
+    cases Spec.Numeral.exponentValue ex with
+    | none => rfl
+    | some v =>
+      simp only [Option.bind_some]
+      by_cases hr : -(2 ^ 127 : Int) ≤ v ∧ v < (2 ^ 127 : Int)
+      · have : ¬ (v < -(2 ^ 127 : Int) ∨ v ≥ (2 ^ 127 : Int)) := by omega
+        simp only [hr, and_self, if_true, this, if_false, Option.map_some]
+        exact mant_eq b v
+      · have : (v < -(2 ^ 127 : Int) ∨ v ≥ (2 ^ 127 : Int)) := by omega
+        simp only [hr, if_false, this, if_true, Option.map_none]
+
+/-- consequence: a rejected string is rejected by the grammar and vice versa; an accepted one
+    carries the grammar's denotation -/
+theorem C05_accepts_iff (s : List Nat) (d : Dec) :
+    parseDec s 10 = some d ↔ Spec.Numeral.specParse s = some d := by
+  rw [C05_parse_eq_spec]
 
 /-- the empty string, a lone sign, a lone point and an exponent without digits are rejected -/
 example : parseDec [] = none ∧ parseDec [43] = none ∧ parseDec [46] = none ∧ parseDec [49, 101] = none
